@@ -67,16 +67,18 @@ _LAYOUT_COUNTER = [0]
 def q_from_float(F):
     """float (..., 4) -> quaternion array (a fresh copy).  For matrices the MEMORY LAYOUT of the result cycles
     deterministically through C order, Fortran order, a transposed view (the layout the library's own
-    quat_hermitian returns) and a READ-ONLY C-ordered array: every routine's result must depend on the values of its arguments only, so every check
+    quat_hermitian returns) a READ-ONLY C-ordered array and a view with negative strides: every routine's result must depend on the values of its arguments only, so every check
     exercises layout independence for free (VERIF_LAYOUTS=0 switches the cycling off)."""
     q = quaternion.as_quat_array(np.ascontiguousarray(F, dtype=np.float64).copy())
     if q.ndim == 2 and min(q.shape) >= 2 and os.environ.get("VERIF_LAYOUTS", "1") != "0":
         _LAYOUT_COUNTER[0] += 1
-        k = _LAYOUT_COUNTER[0] % 4
+        k = _LAYOUT_COUNTER[0] % 5
         if k == 1:
             q = np.asfortranarray(q)
         elif k == 2:
             q = np.ascontiguousarray(q.T).T
+        elif k == 4:
+            q = np.ascontiguousarray(q[::-1, ::-1])[::-1, ::-1]      # negative strides on both axes (a reversed view of reversed data)
         elif k == 3 and os.environ.get("VERIF_READONLY", "1") != "0":
             q.flags.writeable = False          # a READ-ONLY argument (memory-mapped data, np.broadcast_to): a routine never needs to write into it
     return q
